@@ -31,5 +31,6 @@ func TestVerifReplay(t *testing.T) {
 		"VerifC02TxThorough":       VerifC02TxThorough,
 		"VerifC01Deep":             VerifC01Deep,
 		"VerifC01AnyStart":         VerifC01AnyStart,
+		"VerifC17AnyStart":         VerifC17AnyStart,
 	})
 }
